@@ -238,10 +238,12 @@ pub fn c02(tier: &str) -> ! {
     };
     let all_cfgs = ["T300", "T300n", "M2", "M2n"];
     if t {
-        run_crash(&mut rep, "covering+nested", covering_histories(&all_cfgs), spec(true), budget(tier, 40, 1500), own);
-        run_crash(&mut rep, "shrink+nested", shrink_history(), spec(true), budget(tier, 40, 1500), own);
-        run_crash(&mut rep, "generated<=3+nested", generated_histories(&all_cfgs, 3), spec(true), budget(tier, 40, 2400), own);
-        run_crash(&mut rep, "generated<=4", generated_histories(&["T300n", "M2"], 4), spec(false), budget(tier, 40, 2400), own);
+        run_crash(&mut rep, "covering+nested", covering_histories(&all_cfgs), spec(true), budget(tier, 40, 900), own);
+        run_crash(&mut rep, "shrink+levels+nested", shrink_history(), spec(true), budget(tier, 40, 900), own);
+        run_crash(&mut rep, "generated<=3+nested", generated_histories(&all_cfgs, 3), spec(true), budget(tier, 40, 900), own);
+        run_crash(&mut rep, "generated<=5", generated_histories(&all_cfgs, 5), spec(false), budget(tier, 40, 900), own);
+        run_crash(&mut rep, "generated<=4+nested", generated_histories(&["M2n", "T300"], 4), spec(true), budget(tier, 40, 900), own);
+        run_crash(&mut rep, "generated<=4/levels", generated_histories(&["L", "Ln"], 4), spec(false), budget(tier, 40, 600), own);
     } else {
         run_crash(&mut rep, "covering", covering_histories(&all_cfgs).into_iter().chain(shrink_history()).collect(), spec(false), budget(tier, 20, 0), own);
         run_crash(&mut rep, "covering+nested", covering_histories(&["M2", "T300n"]), spec(true), budget(tier, 20, 0), own);
@@ -288,7 +290,8 @@ pub fn c16(tier: &str) -> ! {
     let all_cfgs = ["T300", "T300n", "M2", "M2n"];
     if t {
         run_crash(&mut rep, "covering", covering_histories(&all_cfgs).into_iter().chain(shrink_history()).collect(), spec.clone(), budget(tier, 40, 1500), own);
-        run_crash(&mut rep, "generated<=3", generated_histories(&all_cfgs, 3), spec, budget(tier, 40, 2400), own);
+        run_crash(&mut rep, "generated<=4", generated_histories(&all_cfgs, 4), spec.clone(), budget(tier, 40, 1200), own);
+        run_crash(&mut rep, "generated<=3/levels", generated_histories(&["L", "Ln"], 3), spec, budget(tier, 40, 600), own);
     } else {
         run_crash(&mut rep, "covering", covering_histories(&all_cfgs).into_iter().chain(shrink_history()).collect(), spec.clone(), budget(tier, 25, 0), own);
         run_crash(&mut rep, "generated<=3", generated_histories(&all_cfgs, 3), spec, budget(tier, 30, 0), own);
@@ -447,8 +450,9 @@ pub fn c08(tier: &str) -> ! {
     let t = tier == "thorough";
     if t {
         run_faults(&mut rep, "covering", covering_histories(&["T300", "T300n", "M2", "M2n"]).into_iter().chain(shrink_history()).collect(), class::PROPERTY_SET | class::LIST, budget(tier, 40, 1800));
-        run_faults(&mut rep, "generated<=3", generated_histories(&["T300", "M2n"], 3), class::PROPERTY_SET, budget(tier, 40, 2400));
-        run_faults(&mut rep, "covering+reads", covering_histories(&["M2"]), class::ALL, budget(tier, 40, 1200));
+        run_faults(&mut rep, "generated<=4", generated_histories(&["T300", "M2n"], 4), class::PROPERTY_SET, budget(tier, 40, 1200));
+        run_faults(&mut rep, "generated<=3+all-classes", generated_histories(&["T300n", "M2", "L"], 3), class::ALL, budget(tier, 40, 900));
+        run_faults(&mut rep, "covering+reads", covering_histories(&["T300", "T300n", "M2", "M2n"]).into_iter().chain(shrink_history()).collect(), class::ALL, budget(tier, 40, 1200));
     } else {
         run_faults(&mut rep, "covering", covering_histories(&["T300", "T300n", "M2", "M2n"]).into_iter().chain(shrink_history()).collect(), class::PROPERTY_SET | class::LIST, budget(tier, 30, 0));
         run_faults(&mut rep, "covering+reads", covering_histories(&["M2"]), class::ALL, budget(tier, 15, 0));
@@ -493,6 +497,16 @@ pub fn c15_histories() -> Vec<History> {
         ),
         mk("multi-block-wal", "D", vec![Put(0, 0), BatchBig(vec![1, 2]), Put(0, 0), Del(2)]),
         mk("noreuse-manifest-snapshot", "T300n", vec![Put(0, 0), Flush, Put(1, 0), Flush, Reopen(0), Put(2, 0), Flush, Reopen(0), Put(0, 0)]),
+        // files on six levels, a manifest with many trivial-move and compaction edits
+        mk(
+            "levels",
+            "L",
+            vec![Put(0, 0), Flush, Put(1, 0), Flush, Put(2, 0), Flush, Put(0, 0), Flush, Del(1), Flush, Put(2, 0), Flush, Put(1, 0), Reopen(0), Put(0, 0), Flush, Put(2, 0)],
+        ),
+        // one entry per table file and per block; every lookup passes the filter
+        mk("one-entry-tables", "T1p", vec![Batch(vec![(0, true), (1, true), (2, true)]), Flush, Put(0, 0), Del(1), Flush, Compact(None, None), Put(1, 0), Flush, Put(2, 0)]),
+        // tombstones above older values on deeper levels, rotation left an unflushed WAL
+        mk("tombstones+rotation", "M2n", vec![Put(0, 0), Put(1, 0), Put(2, 0), Del(0), Del(1), Put(0, 0), Del(2), Put(1, 0), Reopen(0), Del(0), Put(2, 0)]),
     ]
 }
 
